@@ -26,6 +26,8 @@ def kitchen_sink():
             continue
         parts.append(terms.build((name, None, None), f))
         parts.append(mo("+"))
+    # numbers a braille code may re-spell while it works on the stored expression: Roman numerals (upper and lower case), a grouped number
+    parts += [mn("XLVIII"), mo("+"), mn("xii"), mo("+"), mn("1,234.5"), mo("+")]
     return row(*parts[:-1])
 
 
@@ -33,7 +35,7 @@ EXPRS = [
     terms.doc(row(mi("a"), mo("⊕"), mi("b"), mo("≅"), mi("ℵ"), mo("+"), mi("ℋ"), mo("+"), mn("⅓"), mo("+"), row(mo("["), mi("x"), mo("+"), mn("1"), mo("]")), row(mo("{"), mi("y"), mo("}")),
                   mo("+"), mn("3"), mtext("tim"), mo("+"), mn("2"), mtext("cup"))),      # + brackets en/en-gb name differently + unit abbreviations of one language only (definitions)
     #      # characters only in unicode-full.yaml (speech: en/es/sv; braille: Nemeth/UEB/Vietnam)
-    terms.doc(row(mn("12"), mo(","), mn("34"), mo("+"), mn("1"), mo("."), mn("234"), mo(","), mn("5"), mo("+"), mn("3.5"))),   # parsed differently per locale
+    terms.doc(row(mn("XLVIII"), mo("+"), mn("12"), mo(","), mn("34"), mo("+"), mn("1"), mo("."), mn("234"), mo(","), mn("5"), mo("+"), mn("3.5"), mo("+"), mn("xii"))),   # parsed differently per locale; Roman numerals (a braille code may re-spell them while it works on the stored expression)
     terms.doc(kitchen_sink()),                                                                          # one of every construct
     terms.doc(row(el("mfrac", mn("7"), mn("3"), intent="binomial($n,"), mo("+"), el("msup", mi("x"), mn("2")))),             # ill-formed intent
 ]
